@@ -13,7 +13,8 @@ from vf.gen.edit import edit_strategy, build_with_history, warm_all
 IMG = GL.Profile(max_surfs=5, shapes=['standard', 'standard', 'standard', 'even_asphere'], allow_mirror=False,
                  keep_edges=True, rho_min=3.0, steep_prob=0.0, ap_types=['EPD', 'imageFNO', 'objectNA'], max_field_deg=10.0,
                  allow_vignetting=False, max_n=2.0, zero_thickness=False, image_refracts=False, positive_power=True,
-                 allow_apertures=True, curved_image=True, unsorted_fields=True)
+                 allow_apertures=True, curved_image=True, unsorted_fields=True, negative_fields=True,
+                 object_medium=True)
 
 f = st.floats
 ANALYSES = ['spot', 'rayfan', 'encircled', 'rms_field', 'distortion', 'grid_distortion', 'field_curvature',
